@@ -198,7 +198,7 @@ func c04Fanout(c *Check, P string, r *GCRoles) {
 	var dcalls []ssa.CallInstruction
 	for _, f := range WithAnon(F) {
 		for _, cl := range CallsIn(f) {
-			if cl.Common().StaticCallee() == r.Deliver {
+			if CalleeFn(cl.Common()) == r.Deliver {
 				dcalls = append(dcalls, cl)
 			}
 		}
